@@ -1193,6 +1193,123 @@ pub fn run(tier: Tier) -> i32 {
         }
         per_rule.lock().unwrap().insert("IllTypedText".into(), e);
     }
+    // a value of another kind meets an expected type: every path by which an expression meets the type
+    // its context requires (operand of == / != / & / | / ^, if / match branch, annotated let, argument,
+    // result, array element, assignment, field, repeat element, nested in a tuple), for non-number
+    // types T met by an unsuffixed number (written or let-bound) and for number types met by a Boolean,
+    // a unit or an array. The twin program with a second variable of type T in the hole must be
+    // accepted (otherwise the instance says nothing and is only counted).
+    {
+        let types: [(&str, &str, bool); 9] = [
+            ("bool", "", false),
+            ("(u8, bool)", "", false),
+            ("[u8; 2]", "", false),
+            ("S", "struct S { a: u8 }\n", false),
+            ("E", "enum E { A, B(u8) }\n", false),
+            ("()", "", false),
+            ("u8", "", true),
+            ("i32", "", true),
+            ("usize", "", true),
+        ];
+        // H = hole, T = type; x and y are parameters of type T, c is a bool
+        let templates: [(&str, &str, &str); 30] = [
+            ("x==H", "bool", "  x == H\n"),
+            ("H==x", "bool", "  H == x\n"),
+            ("x!=H", "bool", "  x != H\n"),
+            ("H!=x", "bool", "  H != x\n"),
+            ("x&H", "T", "  x & H\n"),
+            ("H|x", "T", "  H | x\n"),
+            ("x^H", "T", "  x ^ H\n"),
+            ("if H else x", "T", "  if c { H } else { x }\n"),
+            ("if x else H", "T", "  if c { x } else { H }\n"),
+            ("let r=if H else x", "T", "  let r = if c { H } else { x };\n  r\n"),
+            ("match arm first", "T", "  match c {\n    true => H,\n    false => x,\n  }\n"),
+            ("match arm second", "T", "  match c {\n    true => x,\n    false => H,\n  }\n"),
+            ("let v:T=H", "T", "  let v: T = H;\n  v\n"),
+            ("argument", "T", "  id(H)\n"),
+            ("result", "T", "  H\n"),
+            ("block result", "T", "  let r: T = { H };\n  r\n"),
+            ("[x,H]", "[T; 2]", "  [x, H]\n"),
+            ("[H,x]", "[T; 2]", "  [H, x]\n"),
+            ("assign", "T", "  let mut v = x;\n  v = H;\n  v\n"),
+            ("assign element", "[T; 2]", "  let mut a = [x, y];\n  a[0] = H;\n  a\n"),
+            ("assign tuple field", "(T, bool)", "  let mut t = (x, c);\n  t.0 = H;\n  t\n"),
+            ("struct field", "W", "  W { f: H }\n"),
+            ("enum field", "V", "  V::P(H)\n"),
+            ("(H,c)==(x,c)", "bool", "  (H, c) == (x, c)\n"),
+            ("[H;2]==[x,y]", "bool", "  [H; 2] == [x, y]\n"),
+            ("for over [H,H]", "T", "  let mut s = x;\n  for e in [H, H] {\n    s = e;\n  }\n  s\n"),
+            ("x==H && c", "bool", "  x == H && c\n"),
+            ("callee result", "T", "  konst(x)\n"),
+            ("if c {x} else {H} == y", "bool", "  (if c { x } else { H }) == y\n"),
+            ("let (p,q):(T,bool)=(H,c)", "T", "  let (p, q): (T, bool) = (H, c);\n  p\n"),
+        ];
+        let mut e = (0u64, 0u64, 0u64);
+        let mut twins_refused = 0u64;
+        for (tname, tdefs, is_num) in types {
+            // (how the hole is written, statements put before the body)
+            let mut holes: Vec<(&str, &str)> = if is_num {
+                vec![("true", ""), ("()", ""), ("[1]", ""), ("kb", "  let kb = true;\n"), ("(1, 2)", "")]
+            } else {
+                vec![("1", ""), ("0", ""), ("k", "  let k = 1;\n"), ("-1", ""), ("kn", "  let kn = -1;\n")]
+            };
+            if tname == "bool" {
+                holes.push(("()", ""));
+                holes.push(("[true]", ""));
+            }
+            if tname == "()" {
+                holes.push(("true", ""));
+            }
+            for (name, ret, body) in templates {
+                let build = |hole: &str, pre: &str| -> String {
+                    let callee_hole = if name == "callee result" { hole } else { "y" };
+                    let callee_pre = if name == "callee result" { pre } else { "" };
+                    let mut src = String::new();
+                    src.push_str(tdefs);
+                    src.push_str(&format!("struct W {{ f: {tname} }}\nenum V {{ P({tname}), Q }}\n"));
+                    src.push_str(&format!("fn id(y: {tname}) -> {tname} {{\n  y\n}}\n"));
+                    src.push_str(&format!("fn konst(y: {tname}) -> {tname} {{\n{callee_pre}  if y == y {{ {callee_hole} }} else {{ y }}\n}}\n"));
+                    src.push_str(&format!("pub fn main(x: {tname}, y: {tname}, c: bool) -> {} {{\n", ret.replace('T', tname)));
+                    if name != "callee result" {
+                        src.push_str(pre);
+                    }
+                    let b = body.replace('T', tname);
+                    src.push_str(&if name == "callee result" { b } else { b.replace('H', hole) });
+                    src.push_str("}\n");
+                    // keep every helper used so that no UnusedFn error hides the verdict
+                    src.push_str(&format!("pub fn uses(x: {tname}, w: W, v: V) -> ({tname}, {tname}) {{\n  let a = match v {{\n    V::P(q) => q,\n    V::Q => w.f,\n  }};\n  (id(a), konst(x))\n}}\n"));
+                    src
+                };
+                let twin = build("y", "");
+                let twin_ok = matches!(catch(|| garble_lang::check(&twin).map(|_| ())), Ok(Ok(())));
+                if !twin_ok {
+                    twins_refused += 1;
+                    continue;
+                }
+                for (hole, pre) in &holes {
+                    e.0 += 1;
+                    let src = build(hole, pre);
+                    set_context(&src);
+                    let case = json!({"kind": "ill-typed-text", "name": format!("{name} with T = {tname}, hole = {hole}"), "source": src, "well_typed_twin": twin});
+                    let site = format!("N/KindMeetsType/{tname}/{name}/{hole}");
+                    match catch(|| garble_lang::check(&src).map(|_| ())) {
+                        Err(p) => {
+                            coll.push(Violation::new("C17", site.clone(), "checker-rust-panic", "", case.clone(), p.clone()));
+                            coll.push(Violation::new("C07", site, "rust-panic", "", case, p));
+                        }
+                        Ok(Ok(())) => coll.push(Violation::new("C17", site, "ill-typed-accepted", "", case, "accepted by the type checker")),
+                        Ok(Err(garble_lang::Error::CompileTimeError(garble_lang::CompileTimeError::TypeError(errs)))) if !errs.is_empty() => e.1 += 1,
+                        Ok(Err(other)) => {
+                            e.2 += 1;
+                            coll.push(Violation::new("C17", site, "harness-text-not-a-type-error", "", case, format!("{other:?}")));
+                        }
+                    }
+                }
+            }
+        }
+        per_rule.lock().unwrap().insert("KindMeetsType".into(), e);
+        per_rule.lock().unwrap().insert("KindMeetsType(twins refused: template does not apply to the type)".into(), (twins_refused, 0, 0));
+    }
     // constants are in scope only after their definition: every identifier in a constant
     // expression replaced by every constant name; a name that is not defined earlier must be rejected
     {
